@@ -112,7 +112,8 @@ def random_cases(rng, n):
                 keys.append(k)
             elif r < 0.75:
                 k = rng.choice(live)
-                kinds = ["upd_far", "upd_far", "add_pair", "upd_pdr"] + (["upd_qer"] if h.sess[k]["qers"] else [])
+                kinds = ["upd_far", "upd_far", "add_pair", "upd_pdr"] + (["upd_qer"] if h.sess[k]["qers"] else []) \
+                    + (["upd_qer_remark", "upd_qer_remark"] if len(h.sess[k]["qers"]) >= 2 else [])
                 h.modify(k, rng.choice(kinds), gnb=rng.randrange(3))
             else:
                 h.delete(rng.choice(live))
